@@ -262,7 +262,9 @@ def eval_cases(draw, tier="quick"):
                           zero_weights=not det, multi_p0=not det, absorbing_kinds=("n", "n", "n", "n", "abs")))
     kinds = ("deterministic",) if det else ("stochastic", "deterministic", "sixths")
     return {"mdp": spec, "policy": draw(policy_specs(spec, kinds=kinds)), "kind": draw(st.sampled_from(["functional", "tabular"])),
-            "n": draw(st.integers(1, 20)), "max_steps": draw(st.integers(0, 12)), "seed": draw(st.integers(0, 10 ** 6)),
+            "n": draw(st.integers(1, 20)), "seed": draw(st.integers(0, 10 ** 6)),
+            # mostly short caps; sometimes caps far beyond any "effective horizon" of the discount
+            "max_steps": draw(st.one_of(st.integers(0, 12), st.integers(0, 12), st.sampled_from([60, 400, 900]))),
             "deterministic": det}
 
 
@@ -273,6 +275,8 @@ def prop_evaluate(case, ctx):
     ref = RefMDP(spec)
     policy, _ = make_policy(case, mdp, view)
     n, cap, gamma = case["n"], case["max_steps"], ref.gamma
+    if cap > 12:
+        n = min(n, 3)
     res = ctx.call("C14.evaluate.raises", lambda: Policy.evaluate_on(policy, mdp, n_simulations=n, max_steps=cap,
                                                                        rng=random.Random(case["seed"])))
     rng2 = random.Random(case["seed"])
@@ -324,12 +328,12 @@ def prop_evaluate(case, ctx):
 
 
 PROPS = [
-    Prop("mdp_rollout", lambda tier: mdp_cases(tier), prop_mdp_rollout, quick=3000, thorough=60000,
+    Prop("mdp_rollout", lambda tier: mdp_cases(tier), prop_mdp_rollout, quick=3000, thorough=180000,
          doc="Policy.run_on trajectories validated step by step (harness-owned random stream)"),
-    Prop("pomdp_rollout", lambda tier: pomdp_cases(tier), prop_pomdp_rollout, quick=2000, thorough=40000,
+    Prop("pomdp_rollout", lambda tier: pomdp_cases(tier), prop_pomdp_rollout, quick=2000, thorough=120000,
          doc="POMDPPolicy.run_on trajectories for alpha-vector, QMDP-style and stochastic-controller policies"),
-    Prop("returns", lambda tier: return_cases(tier), prop_returns, quick=1500, thorough=20000,
+    Prop("returns", lambda tier: return_cases(tier), prop_returns, quick=1500, thorough=60000,
          doc="calc_returns vs the defining backward recursion"),
-    Prop("evaluate", lambda tier: eval_cases(tier), prop_evaluate, quick=1500, thorough=30000,
+    Prop("evaluate", lambda tier: eval_cases(tier), prop_evaluate, quick=1500, thorough=90000,
          doc="Policy.evaluate_on vs plain-loop averages of identically seeded roll-outs; deterministic chain walk"),
 ]
